@@ -88,7 +88,13 @@ fn run_case(cx: &CaseCtx, rep: &mut Report) {
 	}
 	cx.progress(&format!("{target} {}", ts.shape));
 	let dir = cx.fresh_dir("c16");
-	let path = container_path(&dir, target);
+	// where the container lives is not part of the container: a folder name with blanks-as-%20 and a hash sign,
+	// the file name a symbolic link into a content-addressed store (target without the extension)
+	let odd_folder = rng.chance(0.3);
+	let linked = target != "directory" && rng.chance(0.25);
+	let home = if odd_folder { dir.join("my%20maps #1 (50%)") } else { dir.clone() };
+	let _ = std::fs::create_dir_all(&home);
+	let path = container_path(&home, target);
 	rep.eval();
 	rep.count(&format!("cases_{target}"), 1);
 
@@ -212,6 +218,21 @@ fn run_case(cx: &CaseCtx, rep: &mut Report) {
 	if let Err(e) = enc {
 		rep.inconclusive(&format!("independent {target} encoder failed: {e}"));
 		return;
+	}
+	if linked {
+		let store = home.join("store");
+		let blob = store.join("3f9a1c7e");
+		#[cfg(unix)]
+		if std::fs::create_dir_all(&store).is_ok() && std::fs::rename(&path, &blob).is_ok() {
+			if std::os::unix::fs::symlink(&blob, &path).is_ok() {
+				freedoms.push("file name is a symlink into a store".into());
+			} else {
+				let _ = std::fs::rename(&blob, &path);
+			}
+		}
+	}
+	if odd_folder {
+		freedoms.push("folder name with %20, # and %".into());
 	}
 	if ts.tiles.len() >= 3 && !freedoms.is_empty() {
 		rep.nontrivial(ts.fingerprint() ^ crate::rng::fnv(format!("{target}{freedoms:?}").as_bytes()));
